@@ -95,7 +95,7 @@ type gRun struct {
 
 // gCfg: which variants of the genesis code /repo contains (probed; tells the Lean driver which model variant to use)
 type gCfg struct {
-	houseFixed, obFixed, rewardFixed bool
+	houseFixed, obFixed, rewardFixed, ovmFixed bool
 }
 
 func (g *gRun) failOnce(mon, class, detail string) {
@@ -123,7 +123,7 @@ func newGRun(out *Out, h int, r *Rng, lean bool, cfg gCfg) *gRun {
 	}
 	out.Op("N %d", h)
 	out.Impl("n %d", h)
-	out.Op("CFG %d %d %d", b2i(cfg.houseFixed), b2i(cfg.obFixed), b2i(cfg.rewardFixed))
+	out.Op("CFG %d %d %d %d", b2i(cfg.houseFixed), b2i(cfg.obFixed), b2i(cfg.rewardFixed), b2i(cfg.ovmFixed))
 	return g
 }
 
@@ -787,16 +787,16 @@ func (g *gRun) otherState(e *Env) []string {
 		for _, v := range p.Votes {
 			fmt.Fprintf(&ws, " %d:%d", g.keyID[v.PublicKey], int32(v.Vote))
 		}
-		add("op %s %d %d %d %d %d %d %d k%s w%s", tag, p.Id, g.ix.A(p.Creator), p.StartTS, p.FinishTS, int32(p.Result), p.Modifications.LeaderIndex,
-			hashNat([]byte(p.ResultMeta)), ids(p.Modifications.PublicKeys), ws.String())
+		add("op %s %d %d %d %d %d %d k%s w%s", tag, p.Id, g.ix.A(p.Creator), p.StartTS, p.FinishTS, int32(p.Result), p.Modifications.LeaderIndex,
+			ids(p.Modifications.PublicKeys), ws.String())
 	}
 	// ---- subaccount (raw stores)
 	sk := ctx.KVStore(e.App.GetKey(subtypes.StoreKey))
 	idb := sk.Get(subtypes.SubaccountIDPrefix)
 	if idb == nil {
-		add("sn 1 0")
+		add("sn 1") // Keeper.Peek: an absent counter reads as 1
 	} else {
-		add("sn %d 1", sdk.BigEndianToUint64(idb))
+		add("sn %d", sdk.BigEndianToUint64(idb))
 	}
 	sp := e.App.SubaccountKeeper.GetParams(ctx)
 	add("sp %d %d", b2i(sp.WagerEnabled), b2i(sp.DepositEnabled))
@@ -865,12 +865,12 @@ func (g *gRun) otherState(e *Env) []string {
 	each(rewardtypes.CampaignKeyPrefix, func(k, v []byte) {
 		var c rewardtypes.Campaign
 		cdc.MustUnmarshal(v, &c)
-		add("rc %d %d %d", uidN(c.UID), g.ix.A(c.Promoter), hashNat(v))
+		add("rc %d %d %d %d", uidN(c.UID), g.ix.A(c.Promoter), c.CapCount, hashNat(v))
 	})
 	each(rewardtypes.RewardKeyPrefix, func(k, v []byte) {
 		var r rewardtypes.Reward
 		cdc.MustUnmarshal(v, &r)
-		add("rr %d %d %d", uidN(r.UID), uidN(r.CampaignUID), hashNat(v))
+		add("rr %d %d %d %d", uidN(r.UID), uidN(r.CampaignUID), g.ix.A(r.Receiver), hashNat(v))
 	})
 	each(rewardtypes.RewardByReceiverAndCategoryKeyPrefix, func(k, v []byte) {
 		var r rewardtypes.RewardByCategory
@@ -913,6 +913,8 @@ func lessNumLine(a, b string) bool {
 
 // ---------------------------------------------------------------------------------------------
 // the export point
+
+var coreModule = map[string]bool{"bet": true, "market": true, "orderbook": true, "house": true}
 
 var validateCodes = map[string]int{
 	"house/withdrawal-deposit-not-found":                           1,
@@ -965,7 +967,9 @@ func (g *gRun) exportPoint() {
 				code = 99
 			}
 		}
-		g.out.Impl("xv %s %d", m, code)
+		if g.lean || !coreModule[m] {
+			g.out.Impl("xv %s %d", m, code)
+		}
 	}
 	if o.WholePanic != "" {
 		g.failOnce("import_no_panic", "app/"+trunc(o.WholePanic, 60), "InitChain from the exported state panicked: "+trunc(o.WholePanic, 400))
@@ -979,7 +983,9 @@ func (g *gRun) exportPoint() {
 		g.out.Count("import.panic." + m)
 	}
 	for _, m := range genesisModules {
-		g.out.Impl("xi %s %d", m, b2i(!bad[m]))
+		if g.lean || !coreModule[m] {
+			g.out.Impl("xi %s %d", m, b2i(!bad[m]))
+		}
 	}
 	for _, m := range genesisModules {
 		if bad[m] {
@@ -1057,6 +1063,12 @@ func genesisProbe() gCfg {
 		defer func() { _ = recover() }()
 		c.rewardFixed = len(reward.ExportGenesis(e.Ctx, *e.App.RewardKeeper).PromoterList) == 1
 	}()
+	// ovm: genesis validation rejects one key in two encodings
+	_, _, k0 := detKey("0")
+	_, _, k1 := detKey("1")
+	_, _, k2 := detKey("2")
+	og := ovmtypes.GenesisState{KeyVault: ovmtypes.KeyVault{PublicKeys: []string{k0, strings.TrimSpace(k0), k1, k2}}, Params: ovmtypes.DefaultParams()}
+	c.ovmFixed = og.Validate() != nil
 	return c
 }
 
